@@ -17,6 +17,9 @@ MOLS = {'BensonGA': ['CC', 'CCO', 'CCCCCC', 'C1CO1', 'CC(C)C', 'C=CC', 'c1ccccc1
 
 UQ_LIBS = ('GRWSurface2018',)
 TAGLIB = os.path.join(vlib.WORK, 'c15_taglib', 'library.yaml')
+UNITLIB = os.path.join(vlib.WORK, 'c15_unitlib', 'library.yaml')
+PROJ_A = os.path.join(vlib.WORK, 'c15_projA')
+PROJ_B = os.path.join(vlib.WORK, 'c15_projB')
 PROPS = ['cp', 'h', 's', 'g', 's', 'g']
 
 
@@ -127,6 +130,28 @@ def gen_history(rng, n, kind='random'):
         ops.append({'op': 'fingerprint', 'obj': 'N'})
         ops.append({'op': 'merge', 'obj': 'M', 'src': 'N'})
         ops.append({'op': 'fingerprint', 'obj': 'M'})
+        return ops, objs
+    if kind == 'unitsblock':
+        # two libraries with DIFFERENT blocks of default units loaded in one process, in either order
+        first, second = ('BensonGA', UNITLIB) if rng.random() < 0.5 else (UNITLIB, 'BensonGA')
+        load('F', first)
+        load('S', second)
+        objs['F'] = objs['S'] = 'BensonGA'
+        ops.append({'op': 'fingerprint', 'obj': 'S'})
+        ops.append({'op': 'fingerprint', 'obj': 'F'})
+        dec('F' if first == 'BensonGA' else 'S', 'CCO')
+        ev('F' if first == 'BensonGA' else 'S', 'CCO', 'h')
+        return ops, objs
+    if kind == 'relpath':
+        # the same RELATIVE library path in two project directories (different schemes), one after the other
+        da, db = (PROJ_A, PROJ_B) if rng.random() < 0.5 else (PROJ_B, PROJ_A)
+        objs['PA'] = objs['PB'] = 'BensonGA'
+        ops.append({'op': 'cd_load', 'obj': 'PA', 'cwd': da, 'lib': 'ga/library.yaml'})
+        dec('PA', 'CC(C)C(C)C')
+        ops.append({'op': 'cd_load', 'obj': 'PB', 'cwd': db, 'lib': 'ga/library.yaml'})
+        dec('PB', 'CC(C)C(C)C')
+        ev('PB', 'CC(C)C(C)C', 'h')
+        dec('PA', 'CC(C)C(C)C')
         return ops, objs
     if kind == 'tagtype':
         # a user-defined property-set type registered AFTER other libraries were loaded and used, then a library carrying such data
@@ -239,6 +264,8 @@ def recipes(ops):
             rec[o['obj']] = (o['op'], o['lib'])
         elif o['op'] == 'tagload':
             rec[o['obj']] = ('tagload', o['path'])
+        elif o['op'] == 'cd_load':
+            rec[o['obj']] = ('cd_load', o['cwd'], o['lib'])
         elif o['op'] == 'share':
             rec[o['obj']] = ('share', rec[o['of']])
         elif o['op'] == 'merge':
@@ -252,6 +279,11 @@ def flatten(tree, ops, names):
         name = 'r%d' % len(names)
         names.append(name)
         ops.append({'op': tree[0], 'obj': name, 'lib': tree[1]})
+        return name
+    if tree[0] == 'cd_load':
+        name = 'r%d' % len(names)
+        names.append(name)
+        ops.append({'op': 'cd_load', 'obj': name, 'cwd': tree[1], 'lib': tree[2]})
         return name
     if tree[0] == 'tagload':
         name = 'r%d' % len(names)
@@ -331,6 +363,23 @@ def run(ctx):
     open(os.path.join(os.path.dirname(TAGLIB), 'scheme.yaml'), 'w').write('patterns: []\n')
     open(TAGLIB, 'w').write("groups:\n  'C(C)(H)3':\n    'thermochem':\n      T_ref: 298.15 K\n      ND_H_ref: -4.0\n      ND_S_ref: 15.0\n"
                             "      ND_Cp_data:\n        - [300 K, 3.0]\n        - [600 K, 5.0]\n      range: [200 K, 1000 K]\n    'tag':\n      value: 7.5\n")
+    os.makedirs(os.path.dirname(UNITLIB), exist_ok=True)
+    open(os.path.join(os.path.dirname(UNITLIB), 'scheme.yaml'), 'w').write('patterns: []\n')
+    open(UNITLIB, 'w').write("units:\n  molar enthalpy: kJ/mol\n  molar entropy: J/(mol K)\n  molar heat capacity: J/(mol K)\n  temperature: K\n"
+                             "groups:\n  'C(C)(H)3':\n    'thermochem':\n      T_ref: 298.15\n      H_ref: -42.5\n      S_ref: 127.3\n"
+                             "      Cp_data:\n        - [300, 25.9]\n        - [600, 45.2]\n      range: [200, 1000]\n")
+    import shutil
+    for d_, coef in ((PROJ_A, None), (PROJ_B, 3)):
+        if os.path.exists(d_):
+            shutil.rmtree(d_)
+        shutil.copytree(os.path.join(vlib.REPO, 'pgradd', 'data', 'BensonGA'), os.path.join(d_, 'ga'))
+        if coef:
+            sp_ = os.path.join(d_, 'ga', 'scheme.yaml')
+            t_ = open(sp_).read()
+            assert "'AlkaneGauchex2': [[2,'AlkaneGauche']]" in t_
+            open(sp_, 'w').write(t_.replace("'AlkaneGauchex2': [[2,'AlkaneGauche']]", "'AlkaneGauchex2': [[%d,'AlkaneGauche']]" % coef))
+    hs += [gen_history(rng, 0, 'unitsblock') for _ in range(ctx.n(2, 6))]
+    hs += [gen_history(rng, 0, 'relpath') for _ in range(ctx.n(2, 6))]
     hs += [gen_history(rng, 0, 'tagtype') for _ in range(ctx.n(1, 4))]
     hs += [gen_history(rng, 0, 'sharedscheme') for _ in range(ctx.n(2, 8))]
     with ThreadPoolExecutor(vlib.NCPU) as ex:
